@@ -568,6 +568,71 @@ theorem pdb_empty_frame_merged_violated :
       ⟨[⟨[['A'], ['B']], [], [pATOM ++ [' ', ' ', 'x']], [], true⟩], .done⟩ := by decide
 end witnesses
 
+/-! ## MOL2 (writer + reader) — `_partial`
+
+   FULL STATEMENT (not proved in general): for every non-empty list `fs` of frames with single-line titles and a
+   counts printer `fc` whose first two words parse back,
+     `loadMany mol2Skel (mol2LoadOne true pa pb) (fs.flatMap (mol2DumpOne fc fa fb)) = ⟨fs.map mol2Norm, .done⟩`,
+   and a cut inside the last molecule gives `⟨(complete frames).map mol2Norm, .loadError _⟩`.
+   What is missing: `mol2.load_one` reads on past its own records up to the next `@<TRIPOS>MOLECULE` (the comment
+   header of the next frame is consumed by the previous `load_one`), so the blocks consumed by the reader are not
+   the blocks written; the induction needs the re-bracketing `head ++ (body ++ head)* ++ body` and a fuel bound for
+   `mol2Go`.  Proved here: the statement for the concrete sequences below by kernel evaluation of the same model
+   (separator-looking titles, with / without / empty bond sections), the truncation outcomes for every cut of a
+   two-frame file, and the loop-level facts; the `traj:mol2` / `trajc:mol2` streams compare the model with the real
+   reader on generated files of up to 50 frames at every cut point. -/
+
+section mol2
+def cnt2 (na nb : Nat) : Line := natDigits na ++ [' '] ++ natDigits nb
+
+def mA : Mol2Frame Line Line := ⟨tMOLECULE, [['x']], none⟩                      -- title looks like a record
+def mB : Mol2Frame Line Line := ⟨[], [['y'], ['z']], some [['b']]⟩              -- no title, one bond
+def mC : Mol2Frame Line Line := ⟨[' ', 'E', 'N', 'D', ' '], [['w']], some []⟩  -- padded title, empty bond section
+
+theorem mol2_roundtrip_examples_partial :
+    loadMany mol2Skel (mol2LoadOne true anyLine anyLine) ([mA, mB, mC].flatMap (mol2DumpOne cnt2 id id)) =
+      ⟨[mA, mB, mC].map mol2Norm, .done⟩ ∧
+    loadMany mol2Skel (mol2LoadOne true anyLine anyLine) ([mB].flatMap (mol2DumpOne cnt2 id id)) =
+      ⟨[mol2Norm mB], .done⟩ ∧
+    loadMany mol2Skel (mol2LoadOne true anyLine anyLine) ([mC, mC, mA, mB].flatMap (mol2DumpOne cnt2 id id)) =
+      ⟨[mC, mC, mA, mB].map mol2Norm, .done⟩ := by decide
+
+/-- every cut of the two-frame file `[mA, mB]`: the complete frames, then either a clean end (cut before the next
+    MOLECULE record or after the last record) or LoadError — never a silent short or partial sequence -/
+theorem mol2_truncation_examples_partial :
+    (List.range 28).all (fun k =>
+      let o := loadMany mol2Skel (mol2LoadOne true anyLine anyLine)
+        (([mA, mB].flatMap (mol2DumpOne cnt2 id id)).take k)
+      if k < 8 then o.frames = [] ∧ o.final ≠ .done            -- no molecule yet: LoadError
+      else if k < 12 then o.frames = [] ∧ o.final ≠ .done      -- inside the first molecule
+      else if k < 20 then o = ⟨[mol2Norm mA], .done⟩           -- first complete, second not started
+      else if k < 27 then o.frames = [mol2Norm mA] ∧ o.final ≠ .done   -- inside the second molecule
+      else o = ⟨[mol2Norm mA, mol2Norm mB], .done⟩) = true := by decide
+
+/-- the `load_many` loop of mol2 never ends silently on an exception of `load_one` -/
+theorem mol2_loop_never_swallows {α β : Type} (pa : Line → Option α) (pb : Line → Option β) (fuel : Nat)
+    (first : Bool) (s s' s'' : Lit) (e : Exc) (hp : runPeek .scanMolecule first s = .go s')
+    (hl : mol2LoadOne true pa pb s' = .raise e s'') :
+    ∃ e', runLoop mol2Skel (mol2LoadOne true pa pb) (fuel + 1) first s = ([], .raised e' s'') :=
+  runLoop_raise .scanMolecule _ fuel first s s' s'' e hp hl
+
+/-- a file without any MOLECULE record is rejected -/
+theorem mol2_no_molecule_rejected {α β : Type} (pa : Line → Option α) (pb : Line → Option β) (ls : List Line)
+    (h : ∀ l ∈ ls, (words l).head? ≠ some tMOLECULE) :
+    ∃ ln, loadMany mol2Skel (mol2LoadOne true pa pb) ls = ⟨[], .loadError ln⟩ := by
+  have key : ∀ (t : List Line) (ln : Int), (∀ l ∈ t, (words l).head? ≠ some tMOLECULE) →
+      ∃ ln', scanMolGo true t ln = .eofErr ⟨[], ln'⟩ := by
+    intro t
+    induction t with
+    | nil => intro ln _; exact ⟨ln + 1, by simp [scanMolGo]⟩
+    | cons l t ih =>
+      intro ln hl
+      obtain ⟨ln', h'⟩ := ih (ln + 1) (fun x hx => hl x (List.mem_cons_of_mem l hx))
+      exact ⟨ln', by simp [scanMolGo, hl l (by simp), h']⟩
+  obtain ⟨ln', hk⟩ := key ls 0 h
+  exact ⟨ln', by simp [loadMany, Lit.ofLines, runLoop, mol2Skel, runPeek, hk, apiFinal]⟩
+end mol2
+
 /-! ## FCHK: point / step bookkeeping -/
 
 theorem fchkSteps_spec (ip np len : Nat) (w : Bool) (t : FchkTag) (ht : t ∈ fchkSteps ip np len w) :
@@ -609,5 +674,29 @@ example : fchkLoadMany 2 [(2, some ⟨4, 12, 12⟩), (1, some ⟨2, 6, 6⟩)] =
 /-- inconsistent `Number of geometries`: the frames actually present are yielded, nstep is their number, one warning -/
 example : fchkLoadMany 1 [(3, some ⟨4, 6, 6⟩)] =
     ([⟨0, 1, 0, 2, 0, 0, true⟩, ⟨0, 1, 1, 2, 2, 1, true⟩], 1, true) := by decide
+
+/-! ## Non-vacuity of the hypotheses (the concrete printers of the library at sample values) -/
+
+/-- `print(natom)` / `int(line)` -/
+example : pyInt (natDigits 0) = some 0 ∧ pyInt (natDigits 7) = some 7 ∧ pyInt (natDigits 50) = some 50 ∧
+    pyInt (natDigits 1234) = some 1234 ∧ isBlank (natDigits 0) = false := by decide
+
+/-- the SDF counts line `f"{natom:3d}{nbond:3d}  0     0  0  0  0  0  0999 V2000"` -/
+def sdfCountsLine (na nb : Nat) : Line :=
+  rjust 3 (natDigits na) ++ rjust 3 (natDigits nb) ++ "  0     0  0  0  0  0  0999 V2000".toList
+
+example : pyInt ((sdfCountsLine 16 15).take 3) = some 16 ∧ pyInt (((sdfCountsLine 16 15).drop 3).take 3) = some 15 ∧
+    lastWordUpper (sdfCountsLine 16 15) = some ['V', '2', '0', '0', '0'] ∧ isBlank (sdfCountsLine 16 15) = false := by
+  decide
+example : pyInt ((sdfCountsLine 999 0).take 3) = some 999 ∧ pyInt (((sdfCountsLine 999 0).drop 3).take 3) = some 0 := by
+  decide
+/-- outside the column capacity the hypothesis `SdfCountsOk` fails (1000 atoms are read back as 100) -/
+example : pyInt ((sdfCountsLine 1000 0).take 3) = some 100 := by decide
+
+/-- a complete instance of the XYZ statements with every hypothesis discharged by evaluation -/
+example : loadMany xyzSkel (xyzLoadOne anyLine)
+    ([(⟨['$', '$', '$', '$'], [['a'], ['b']]⟩ : XyzFrame Line), ⟨[], [['c']]⟩, ⟨['1', '2'], []⟩].flatMap
+      (xyzDumpOne natDigits id) ++ [[], [' ']]) =
+    ⟨[⟨['$', '$', '$', '$'], [['a'], ['b']]⟩, ⟨defaultTitle, [['c']]⟩, ⟨['1', '2'], []⟩], .done⟩ := by decide
 
 end Iodata.Props.C13
